@@ -1696,7 +1696,7 @@ func init() {
 	register(&property{
 		Meta: propertyMeta{
 			ID:          "C18",
-			Explanation: "(C18-TABLE) decision-table extraction: every CFG path of binding.Auto is reduced to its decisions (comparisons of r.Method with constants, Contains tests of the Content-Type header against constants) and its outcome (parse calls and the binder applied to which source and destination); the table must be: method not in exactly {POST, PUT, PATCH} -> Query.BindValues(r.URL.Query()); else '/x-www-form-urlencoded' -> ParseForm + Form.BindValues(r.PostForm); '/form-data' -> ParseMultipartForm(DefaultMaxMemory) + Form.BindValues(r.PostForm); '/json' -> JSON.Bind; '/xml' -> XML.Bind; otherwise an error — tests in that order, no later test after a success. (C18-SRC) Auto reads only r.Method, r.Header, r.URL, r.PostForm. (C18-VALID) every binder (all implementers of Binder, BindValues/BindBytes and the decode helpers) returns either a known non-nil error or the result of Validate on the same destination; BinderFunc.Bind is the listed exception. (C18-ERR) no error result is dropped in pkg/binding and context_binding.go; nothing in pkg/binding panics or has an undischarged index/assertion obligation outside Must*.",
+			Explanation: "(C18-TABLE) decision-table extraction: every CFG path of binding.Auto is reduced to its decisions (comparisons of r.Method with constants, Contains tests of the Content-Type header against constants) and its outcome (parse calls and the binder applied to which source and destination); the table must be: method not in exactly {POST, PUT, PATCH} -> Query.BindValues(r.URL.Query()); else '/x-www-form-urlencoded' -> ParseForm + Form.BindValues(r.PostForm); '/form-data' -> ParseMultipartForm(DefaultMaxMemory) + Form.BindValues(r.PostForm); '/json' -> JSON.Bind; '/xml' -> XML.Bind; otherwise an error — tests in that order, no later test after a success. (C18-SRC) Auto reads only r.Method, r.Header, r.URL, r.PostForm. (C18-VALID) every binder (all implementers of Binder, BindValues/BindBytes and the decode helpers) returns either a known non-nil error or the result of Validate on the same destination; BinderFunc.Bind is the listed exception. (C18-ERR) no error result is dropped in pkg/binding and context_binding.go; nothing in pkg/binding panics or has an undischarged index/assertion obligation outside Must*. An error result that a path found non-nil is what that path returns (or wraps); DecodeUrlValues hands its values parameter to the decoder unmodified.",
 			NotDecided:  []string{"encode -> bind equality for any struct (codec round trip)", "behaviour of formam, encoding/json, encoding/xml, gookit/validate on malformed input (trusted not to panic)"},
 			Assumptions: []string{"third-party decoders return errors instead of panicking"},
 		},
@@ -1714,7 +1714,7 @@ func init() {
 	register(&property{
 		Meta: propertyMeta{
 			ID:          "C20",
-			Explanation: "(C20-AUTH) truth-table enumeration: the closure of HTTPBasicAuth touches the credentials only through four boolean atoms (ok of Req.BasicAuth(), len(accounts) > 0, comma-ok of accounts[user], srcPwd == pwd); all CFG paths are enumerated with their decisions and effects and, for each of the 16 valuations, the set of reachable effects must be exactly: !ok -> AbortWithStatus(401) preceded by the WWW-Authenticate header; ok && hasAccounts && !(found && same) -> AbortWithStatus(403); otherwise no abort; never Next() on an aborting path ('nothing downstream runs' is then C05). (C20-OVERRIDE) the single store to Request.Method lies only on paths with Method == POST and a successful comparison of the stored value with exactly {PUT, PATCH, DELETE}; the value is the upper-cased _method form value or, when empty, the X-HTTP-Method-Override header; POST is recorded under OriginalMethodContextKey on the same path; the wrapped handler runs exactly once on every path. (C20-ADAPT) WrapHTTPHandler/WrapHTTPHandlerFunc call the wrapped handler once with c.Resp and c.Req loaded at call time; aliases forward. (C05-SENTINEL) AbortWithStatus parks the cursor.",
+			Explanation: "(C20-AUTH) truth-table enumeration: the closure of HTTPBasicAuth touches the credentials only through four boolean atoms (ok of Req.BasicAuth(), len(accounts) > 0, comma-ok of accounts[user], srcPwd == pwd); all CFG paths are enumerated with their decisions and effects and, for each of the 16 valuations, the set of reachable effects must be exactly: !ok -> AbortWithStatus(401) preceded by the WWW-Authenticate header; ok && hasAccounts && !(found && same) -> AbortWithStatus(403); otherwise no abort; never Next() on an aborting path ('nothing downstream runs' is then C05). (C20-OVERRIDE) the single store to Request.Method lies only on paths with Method == POST and a successful comparison of the stored value with exactly {PUT, PATCH, DELETE}; the value is the upper-cased _method form value or, when empty, the X-HTTP-Method-Override header; POST is recorded under OriginalMethodContextKey on the same path; the wrapped handler runs exactly once on every path. (C20-ADAPT) WrapHTTPHandler/WrapHTTPHandlerFunc call the wrapped handler once with c.Resp and c.Req loaded at call time; aliases forward. (C05-SENTINEL) AbortWithStatus parks the cursor. Every alternative of the override value (form field, header) passes strings.ToUpper before the whitelist comparison unless it is known empty on that alternative.",
 			NotDecided:  []string{"Request.BasicAuth header parsing (trusted)", "WrapHTTPHandlers' 'first listed is outermost' for lists of any length (index arithmetic over a run-time length)"},
 			Assumptions: []string{"net/http.Request.BasicAuth reports ok only for well-formed Basic credentials"},
 		},
